@@ -210,7 +210,7 @@ def spec(weights, coord):
     dest_hints = ['mention KEYD(i)', 'unfold H(keys[i], i)',
                   f'H(KEY(i), i + 1) <= H(KEY(i), {N})', f'G(KEY(i), {N}) + H(KEY(i), {N}) == G(KEY(i) + 1, {N})',
                   f'G(KEY(i) + 1, {N}) <= G(npartition, {N})', f'0 <= DEST(i) and DEST(i) < {N}']
-    inj = f'forall(q, 0, i, DEST(q) != DEST(i))'
+    inj = 'forall_intro forall((q,), 0 <= q and q < i, DEST(q) != DEST(i)) at_terms i'
     wr2 = dict(psort=('r,c', 'exists(q, tstart[t], tstart[t + 1], DEST(q) == r)'), pointers=('tt,k', 'tt == t'))
     if weights:
         wr2['wsort'] = ('r', 'exists(q, tstart[t], tstart[t + 1], DEST(q) == r)')
